@@ -143,7 +143,13 @@ def compare(ctx, case, out, shape, exp, sig_prefix):
             got[k] = geom.attr_num(el, k, F(0) if k in ("x", "y", "cx", "cy", "x1", "y1", "x2", "y2") else None)
         except ValueError as e:
             got[k] = str(e)
-    bad = sorted(k for k in exp if got.get(k) != exp[k])
+    tol = geom.fr(case.get("tol", "0"))
+
+    def differs(a, b):
+        if isinstance(a, F) and isinstance(b, F):
+            return abs(a - b) > tol
+        return a != b
+    bad = sorted(k for k in exp if differs(got.get(k), exp[k]))
     if bad:
         acc.violation("geometry-differs", "%s:geometry(%s)" % (sig_prefix, ",".join(bad)), case,
                       observed={k: (fmt(v) if isinstance(v, F) else v) for k, v in got.items()}, expected={k: fmt(v) for k, v in exp.items()},
@@ -184,6 +190,19 @@ def check_case(ctx, case):
     compare(ctx, case, r.out, case["shape"], exp, sig)
 
 
+def sample_box_decimal(rng, shape):
+    """one-decimal coordinates (not representable exactly in binary floating point), sizes often round numbers: derived
+    values then carry rounding noise around 'nice' results (20.000002, 9.999999)"""
+    x1, y1 = F(rng.randint(-500, 1500), 10), F(rng.randint(-500, 1500), 10)
+
+    def size():
+        return F(rng.choice([10, 20, 30, 50, 100, 200])) if rng.random() < 0.4 else F(rng.randint(0, 400), 10)
+    w, h = size(), size()
+    if shape == "circle":
+        h = w
+    return Box(x1, y1, x1 + w, y1 + h)
+
+
 def run_shard(ctx):
     acc = ctx.acc
     rng = ctx.rng("boxes")
@@ -211,6 +230,17 @@ def run_shard(ctx):
                         n += 1
                         if n == 3:
                             acc.sample(dict(input=doc, expected=case["expected"]))
+                    # the same structural case on decimal boxes; compared up to the 3-decimal output rounding
+                    for _ in range(max(1, k // 4)):
+                        if ctx.out_of_time():
+                            return
+                        box = sample_box_decimal(rng, shape)
+                        items = build_attrs(rng, shape, px, py, box, spelling)
+                        exp = expected_native(shape, box)
+                        case = dict(input=make_doc(shape, items).encode(), shape=shape, expected={a: fmt(v) for a, v in exp.items()}, tol="0.0011",
+                                    sig="%s/%s%s-%s%s/%s/decimal" % (shape, px[0], px[1], py[0], py[1], spelling),
+                                    feats=["shape." + shape, "values.decimal", "spelling." + spelling])
+                        check_case(ctx, case)
     # deltas: dx/dy/dxy translate, dw/dh/dwh resize (absolute and percent), equivalence of shorthand and longhand
     for shape in SHAPES:
         for form in ("dx-dy", "dxy2", "dxy1", "dw-dh", "dwh2", "dwh1", "dwh-pct"):
